@@ -73,6 +73,7 @@ type SiteSpec struct {
 	Kind   string // sink | assert | ghost
 	Cl     Clause
 	Ghost  *GhostSet
+	After  bool // evaluated after the call (result / resultN bound) instead of before it
 }
 
 type Contract struct {
@@ -149,7 +150,7 @@ func (s *Specs) sortByName(n string) (Sort, error) {
 }
 
 var clauseKeywords = map[string]bool{"func": true, "lib": true, "iface": true, "model": true, "ghostmodel": true, "ufun": true, "def": true, "axiom": true, "const": true,
-	"requires": true, "ensures": true, "assigns": true, "pure": true, "readonly": true, "inline": true, "loop": true, "sink": true, "at": true,
+	"requires": true, "ensures": true, "assigns": true, "pure": true, "readonly": true, "inline": true, "loop": true, "sink": true, "at": true, "after": true,
 	"trusted": true, "alias": true, "returns": true, "also": true, "like": true, "fresh": true, "panics": true, "props": true, "sort": true, "params": true, "constglobal": true, "ghost": true, "gosort": true, "lockinv": true, "guarded": true, "stable": true}
 
 // loadSpecFile parses one contract/spec file. Lines may carry a "//@" prefix (Go comment-only contract files).
@@ -467,7 +468,7 @@ func (s *Specs) loadSpecFile(path string) error {
 				default:
 					return fmt.Errorf("%s: bad loop clause kind %q", where, f[1])
 				}
-			case "sink", "at":
+			case "sink", "at", "after":
 				// sink Callee#n requires E   |  at Callee#n assert E
 				f := strings.Fields(rest)
 				if len(f) < 3 {
@@ -483,9 +484,10 @@ func (s *Specs) loadSpecFile(path string) error {
 				}
 				body := strings.TrimSpace(strings.TrimPrefix(strings.TrimSpace(strings.TrimPrefix(rest, f[0])), f[1]))
 				kind := "sink"
-				if kw == "at" {
+				if kw == "at" || kw == "after" {
 					kind = f[1] // assert | ghost
 				}
+				isAfter := kw == "after"
 				if kind == "ghost" {
 					parts := strings.SplitN(body, ":=", 2)
 					if len(parts) != 2 {
@@ -507,14 +509,14 @@ func (s *Specs) loadSpecFile(path string) error {
 					if len(call.Args) == 1 {
 						g.Arg = call.Args[0]
 					}
-					cur.Sites = append(cur.Sites, SiteSpec{Callee: callee, Ord: ord, Kind: kind, Cl: c, Ghost: g})
+					cur.Sites = append(cur.Sites, SiteSpec{Callee: callee, Ord: ord, Kind: kind, Cl: c, Ghost: g, After: isAfter})
 					break
 				}
 				c, err := mkClause(body)
 				if err != nil {
 					return err
 				}
-				cur.Sites = append(cur.Sites, SiteSpec{Callee: callee, Ord: ord, Kind: kind, Cl: c})
+				cur.Sites = append(cur.Sites, SiteSpec{Callee: callee, Ord: ord, Kind: kind, Cl: c, After: isAfter})
 			}
 		}
 	}
